@@ -92,6 +92,10 @@ class Evaluator:
             return ("E", v.name)
         if isinstance(v, bool):
             return v
+        if isinstance(v, Atom):
+            return ("A", v.key)         # never repr(): an object address would make every run a fresh atom
+        if isinstance(v, tuple) and v and v[0] == "lambda":
+            return ("lambda", v[1].get("l"))
         return repr(v)
 
     # ------------------------------------------------------------------ expressions
@@ -101,9 +105,13 @@ class Evaluator:
             return e["v"]
         if k == "int":
             return e["v"]
+        if k == "lambda":
+            return ("lambda", e, env)
         if k == "ref":
             if e.get("dk") == "enumerator":
                 return ("enum", e["name"])
+            if e.get("dk") == "func":
+                return ("func", e.get("q") or e.get("name"))
             key = e.get("name")
             if key in env:
                 return env[key]
@@ -228,6 +236,20 @@ class Evaluator:
         name = c.get("name")
         recv = c.get("recv")
         args = c.get("args", [])
+        # a local lambda (`const auto both = [&](pred) {...}; both(is_integral)`) or a call through a function pointer
+        if c.get("ck") == "op" and c.get("op") == "()" and recv is not None:
+            f = self.safe_ev(recv, env)
+            if isinstance(f, tuple) and f and f[0] == "lambda":
+                return self.call_lambda(f, args, env)
+        if c.get("ck") == "indirect" and c.get("callee") is not None:
+            f = self.safe_ev(c["callee"], env)
+            if isinstance(f, tuple) and f and f[0] == "lambda":
+                return self.call_lambda(f, args, env)
+            if isinstance(f, tuple) and f and f[0] == "func":
+                pseudo = {"k": "call", "ck": "free", "fn": f[1], "name": f[1].split("::")[-1], "args": args,
+                          "cpt": [], "l": c.get("l")}
+                return self.call(pseudo, env)
+            raise Cannot("indirect call through %r" % (f,))
         # operator[] on an expression: child i
         if c.get("ck") == "op" and c.get("op") == "[]" and recv is not None:
             r = self.ev(recv, env)
@@ -263,6 +285,23 @@ class Evaluator:
         if name == "move" and len(args) == 1:
             return self.ev(args[0], env)
         return self.inline(c, env)
+
+    def call_lambda(self, f, args, env):
+        _, node, cenv = f
+        env2 = dict(cenv)           # captures: the defining environment (by reference or value - not reassigned here)
+        for p, a in zip(node.get("params", []), args):
+            env2[p["name"]] = self.ev(a["e"] if a.get("k") == "defarg" else a, env)
+        self.depth += 1
+        try:
+            if self.depth > 14:
+                raise Cannot("lambda recursion")
+            try:
+                self.exec(node["body"], env2)
+            except Ret as r:
+                return r.v
+            return None
+        finally:
+            self.depth -= 1
 
     def method(self, r, c, env):
         name = c.get("name")
@@ -390,11 +429,16 @@ class Evaluator:
             for v in n["vars"]:
                 if v.get("bindings"):
                     # structured binding: `const auto [a, b] = f(x);` with f returning a pair / tuple
-                    val = self.ev(v["init"], env) if v.get("init") is not None else None
-                    if not (isinstance(val, tuple) and val and val[0] == "tuple" and len(val[1]) == len(v["bindings"])):
-                        raise Cannot("structured binding of %r" % (val,))
-                    for b, x in zip(v["bindings"], val[1]):
-                        env[b["name"]] = x
+                    try:
+                        val = self.ev(v["init"], env) if v.get("init") is not None else None
+                    except Cannot:
+                        val = None
+                    if isinstance(val, tuple) and val and val[0] == "tuple" and len(val[1]) == len(v["bindings"]):
+                        for b, x in zip(v["bindings"], val[1]):
+                            env[b["name"]] = x
+                    else:       # e.g. the two bounds of t.get_range(): below the abstract domain - opaque locals
+                        for b in v["bindings"]:
+                            env[b["name"]] = Atom(("local", b["name"], n.get("l")))
                     continue
                 if v.get("init") is not None:
                     try:
@@ -518,6 +562,16 @@ class CheckExprTable:
                     if "type_t" in v.get("ct", "") and \
                             (init is None or (init.get("k") == "construct" and not init.get("args"))):
                         self.type_locals.append(v["name"])
+        # local lambdas declared before the switch (shorthands used by the typing clauses)
+        self.local_lambdas = []
+        for n in walk(self.fn["body"]):
+            if n.get("k") == "decl" and id(n) not in inside:
+                for v in n["vars"]:
+                    init = v.get("init")
+                    while isinstance(init, dict) and init.get("k") in ("cast",) :
+                        init = init["e"]
+                    if isinstance(init, dict) and init.get("k") == "lambda":
+                        self.local_lambdas.append((v["name"], init))
         self.result_var = None
         for st in self.post:
             for c in walk(st):
@@ -546,6 +600,8 @@ class CheckExprTable:
             raise AnalysisBroken("checkExpression has no case for %s" % kind)
         for name in self.type_locals:
             env.setdefault(name, TypeV(None))
+        for name, node in self.local_lambdas:
+            env[name] = ("lambda", node, env)
         try:
             try:
                 for labels, s in self.items[start:]:
@@ -578,6 +634,14 @@ class CheckExprTable:
         except TooManyAtoms:
             # the row depends on structure far below the domain (e.g. array of array sizes): opaque
             res = [({}, ("opaque",))]
+        # an undecided atom that is a call of a local callable (lambda object, function pointer) means the reader could
+        # not look inside a typing clause: enumerating it both ways would invent outcomes - that is analysis-broken
+        for assign, _ in res:
+            for k in assign:
+                if isinstance(k, tuple) and k and k[0] in ("call", "rec") and isinstance(k[1], str) and \
+                        ("(anonymous class)" in k[1] or "lambda" in k[1] or k[1].endswith("operator()")):
+                    raise AnalysisBroken("checkExpression(%s): a typing clause goes through a local callable the table "
+                                         "reader cannot evaluate (%s)" % (kind, k[1][:80]))
         return res, seen
 
 
